@@ -48,7 +48,7 @@ def run_suite(crates):
     """tests of the touched crates (and the demo crate) with the change applied: every BASELINE stable_pass test of those
     crates must still pass; failures are re-run (timing tests of dicom-ul flake on a loaded machine)"""
     base = json.load(open("/root/.vp/BASELINE.json"))
-    junit = os.path.join(TGT, "nextest", "pb", "junit.xml")
+    junit = os.path.join(WT, "target", "nextest", "pb", "junit.xml")
     def once(extra):
         if os.path.exists(junit): os.remove(junit)
         cmd = "cargo nextest run --no-fail-fast --tool-config-file pb:/w/lib/nextest.toml --profile pb --test-threads 4 --offline " + \
